@@ -7,6 +7,7 @@
 -/
 import SSEPyVerif.Proofs.Schemes.ChainCfg
 import SSEPyVerif.Proofs.Schemes.SSE2
+import SSEPyVerif.Proofs.Schemes.PiPtr
 namespace SSEPy.C02
 open SSEPy.Sch SSEPy.Sch.Chain
 
@@ -19,6 +20,14 @@ theorem Chain.search_absent_empty (cfg : ChainCfg) (lv : Leaves) (K : Bytes) (db
     Chain.search cfg lv D (K1, K2) = .ok [] := by
   obtain ⟨L, hL, rfl⟩ := setup_eq cfg lv K db t t' D hs
   exact search_absent cfg lv K1 K2 L l0 h0 (hfresh L hL)
+
+/-- PiPtr: a keyword whose first probe label is not in the dictionary gets the empty result (no pointer is read, the array
+    is not touched) -/
+theorem PiPtr.search_absent_empty (cfg : PiPtrCfg) (lv : Leaves) (edb : PiPtrEDB) (K1 K2 l0 : Bytes)
+    (h0 : cfg.prfF.call lv.hmac K1 (natToBytesMin 0) = .ok l0) (hmiss : edb.D.get l0 = none) :
+    PiPtr.search cfg lv edb (K1, K2) = .ok [] := by
+  have h0' : cfg.chain.prfF.call lv.hmac K1 (natToBytesMin 0) = .ok l0 := h0
+  simp [PiPtr.search, PiPtr.ptrLoop, Chain.searchLoop, h0', hmiss, PiPtr.fetch, bind, Except.bind, pure, Except.pure]
 
 /-- SSE-2: a keyword whose first address `π(w ‖ 1)` is not the address of a stored posting gets the empty result -/
 theorem SSE2.search_absent_empty (cfg : SSE2Cfg) (lv : Leaves) (K1 : Bytes) (db : DB) (I : ITable)
